@@ -121,6 +121,14 @@ func init() {
 
 	// time: fresh non-decreasing instants
 	reg("time.Now", func(ex *Exec, fr *frame, fn *ssa.Function, args []Value) Value {
+		if ex.modes["concrete-clock"] {
+			// harness asked for a concrete clock (one millisecond per reading):
+			// the instants themselves are not the subject of the check
+			n, _ := ex.pathState["clock"].(int64)
+			n += 1000000
+			ex.pathState["clock"] = n
+			return Struct{mkBV(64, 0), i64(n), (*Value)(nil)}
+		}
 		ex.stub("time.Now: arbitrary non-decreasing instants")
 		// time.Time{wall uint64, ext int64, loc *Location}; use ext as nanoseconds
 		t := ex.freshEnvTerm("now", KBV, 64)
@@ -135,6 +143,12 @@ func init() {
 		return Struct{mkBV(64, 0), t, (*Value)(nil)}
 	})
 	reg("time.Since", func(ex *Exec, fr *frame, fn *ssa.Function, args []Value) Value {
+		if ex.modes["concrete-clock"] {
+			n, _ := ex.pathState["clock"].(int64)
+			n += 1000000
+			ex.pathState["clock"] = n
+			return mkBin(OpSub, i64(n), args[0].(Struct)[1].(*Term))
+		}
 		ex.stub("time.Since: difference to a fresh non-decreasing instant")
 		t := ex.freshEnvTerm("now", KBV, 64)
 		if ex.x != nil {
